@@ -115,7 +115,7 @@ func genC06(tier, out string, sum *Summary) {
 			fresh := search(text, deepCopy(doc))
 			sum.count("calls")
 			sum.count("outcome/" + o.Kind)
-			if !sameObs(o, fresh, un) && !(o.Kind == "err" && fresh.Kind == "err") {
+			if !sameObs(o, fresh, un) && !(o.Kind == "err" && fresh.Kind == "err") && !(un && orderSensitive(e)) {
 				sum.direct("reuse", text, doc, fmt.Sprintf("call %d on the compiled expression gives %s, a fresh one-shot search gives %s", k, describe(o), describe(fresh)))
 			}
 			if !reflect.DeepEqual(before, snapshot(doc)) {
@@ -192,7 +192,7 @@ func genC07(tier, out string, sum *Summary) {
 							return x.Search(doc)
 						})
 					}
-					if !sameObs(o, seq, un) && !(o.Kind == "err" && seq.Kind == "err") {
+					if !sameObs(o, seq, un) && !(o.Kind == "err" && seq.Kind == "err") && !(un && orderSensitive(e)) {
 						mu.Lock()
 						bad = fmt.Sprintf("a concurrent call gives %s, the same call alone gives %s", describe(o), describe(seq))
 						mu.Unlock()
